@@ -345,4 +345,22 @@ example :
     (readAttr 50 ([a, b, c, d].foldl (zoneHandle ctl "01") []) ["30C9"] "01").1 = some 2100 := by
   decide +kernel
 
+/-- **a one-zone announcement folded into the array is the zone's value**: when a message's elements
+    are an array followed by what was received after it (the gateway merges a second packet of the
+    same code that arrives within 3 s into the first), the element read for a zone is the *later*
+    one that names it -/
+theorem elemOf_later_wins (z : String) (m : Msg) (a b : List (String × Int)) (hm : m.elems = a ++ b)
+    (e : String × Int) (hb : b.reverse.find? (fun e => e.1 = z) = some e) : elemOf z m = some e.2 := by
+  unfold elemOf
+  rw [hm, List.reverse_append, List.find?_append, hb]
+  rfl
+
+/-- ... and the array's own element only when the later part does not name the zone -/
+theorem elemOf_earlier_when_absent (z : String) (m : Msg) (a b : List (String × Int)) (hm : m.elems = a ++ b)
+    (hb : b.reverse.find? (fun e => e.1 = z) = none) :
+    elemOf z m = (a.reverse.find? (fun e => e.1 = z)).map (·.2) := by
+  unfold elemOf
+  rw [hm, List.reverse_append, List.find?_append, hb]
+  rfl
+
 end Ramses.C14
